@@ -24,16 +24,20 @@ func (Prop) Configs(tier string) []string {
 	// ZUC dispatch: supportsAES (asm keystream) x useAVX (AVX / SSE bodies) x supportsGFMUL (CLMUL EIA rounds), purego tag.
 	return []string{"c-default", "c-nopclmul", "c-noaes", "c-sse", "c-noavx2", "c-purego"}
 }
-func (Prop) SelfTest() error { return zucref.SelfTest() }
+func (Prop) SelfTest() error {
+	if err := zucref.SelfTest(); err != nil {
+		return err
+	}
+	return selfCheckDump()
+}
 
 func (Prop) Rule() string {
 	return "E1 stream: engine.BFS over histories of {XORKeyStream(l), XORKeyStreamAt(off,l)} on real objects from zuc.NewCipher / NewCipherWithBucketSize " +
 		"for ZUC-128 and ZUC-256 x bucket sizes {0,1,128,129,256,384}; quick: l in {1,4,127,128,129,257}, off in {0,1,127,128,129,256,385,1000} (54 ops) to depth 3; " +
 		"thorough: l in {0,1,3,4,5,127,128,129,255,256,257}, off in {0,1,3,4,127,128,129,255,256,257,383,384,385,511,512,1000} (187 ops) to depth " + fmt.Sprint(thoroughBigDepth) + " and the quick alphabet to depth " + fmt.Sprint(thoroughSmallDepth) + ". " +
-		"(thorough: one search per (object, first operation) so that a case stays small; merging is then per case). " +
 		"Each output is compared with src XOR reference keystream at the absolute positions (XORKeyStreamAt moves the sequential position to off+l, as the seek documentation says); " +
 		"the buffer mode of an operation rotates with (depth + operation index) mod 3 over {disjoint dst, in place, dst longer than src (tail must stay untouched)}, buffers end at a guard page; " +
-		"states are merged only on an identical SHA-256 of the reflect dump of the whole cipher object " +
+		"states are merged only on an identical SHA-256 of the reflect/unsafe dump of the whole cipher object " +
 		"(LFSR/FSM, partial-round buffer incl. stale bytes, position, checkpoint list, stateIndex, bucket size) + model position. " +
 		"E2 stream: every length 0..N followed by a second call and a backward seek, and every offset 0..N on a fresh object followed by a sequential call and a backward seek, in all three buffer modes, N=600 (thorough 1300), bucket sizes 0/128/256 and both constructors, plus the EEA3 constructors for all bearers/directions. " +
 		"MAC E2: every bit length 0..640 (thorough 0..2100) through Finish(p,nbits) on a fresh and on a reused object, bits after nbits set to 1 resp. 0, p ending at a guard page, " +
@@ -260,9 +264,61 @@ func apply(t *engine.T, b *bufs, exp []byte, s *sstate, o sop, m int, bucketClas
 	return true
 }
 
+// selfCheckDump validates the state-key serialiser: on a set of real cipher and MAC objects in assorted
+// states, fastDump and engine.Dump must induce exactly the same equality classes.
+func selfCheckDump() error {
+	var objs []any
+	for _, v := range variants {
+		for _, bucket := range []int{0, 128, 256} {
+			for _, seq := range [][]sop{
+				{}, {{l: 1}}, {{l: 1}}, {{l: 128}}, {{l: 129}}, {{l: 129}, {at: true, off: 1, l: 128}}, {{l: 1}, {l: 128}},
+				{{at: true, off: 385, l: 4}}, {{at: true, off: 385, l: 4}, {at: true, off: 0, l: 389}}, {{at: true, off: 1000, l: 257}, {at: true, off: 127, l: 1}},
+				{{l: 257}, {at: true, off: 256, l: 1}}, {{l: 256}, {l: 1}},
+			} {
+				c := newStream(v, bucket, true)
+				for _, o := range seq {
+					buf := make([]byte, o.l)
+					if o.at {
+						c.XORKeyStreamAt(buf, buf, uint64(o.off))
+					} else {
+						c.XORKeyStream(buf, buf)
+					}
+				}
+				objs = append(objs, c)
+			}
+		}
+	}
+	for _, mv := range macVariants {
+		for _, seq := range [][]int{{}, {0}, {1}, {1}, {16}, {17}, {1, 16}, {16, 1}, {33}, {32, 1}} {
+			h := mv.new(0)
+			for _, n := range seq {
+				h.Write(patMsg(0, n))
+			}
+			objs = append(objs, h)
+		}
+	}
+	equalPairs := 0
+	for i := range objs {
+		for j := i + 1; j < len(objs); j++ {
+			a := engine.DumpString(objs[i]) == engine.DumpString(objs[j])
+			b := string(fastDump(objs[i])) == string(fastDump(objs[j]))
+			if a != b {
+				return fmt.Errorf("c11: state serialisers disagree on objects %d and %d (engine.Dump equal: %v, fastDump equal: %v)", i, j, a, b)
+			}
+			if a {
+				equalPairs++
+			}
+		}
+	}
+	if equalPairs == 0 {
+		return fmt.Errorf("c11: state serialiser self-check is vacuous")
+	}
+	return nil
+}
+
 func hashKey(v any, model int) string {
 	h := sha256.New()
-	h.Write(engine.Dump(v))
+	h.Write(fastDump(v))
 	fmt.Fprintf(h, "|%d", model)
 	return string(h.Sum(nil))
 }
@@ -274,24 +330,17 @@ func bucketClass(bucket int) string {
 	return "bucket"
 }
 
-// streamMachine: first >= 0 restricts the search to the histories that start with operation `first`
-// (it is applied inside New; the caller has checked it once on its own). The buffer mode of an operation
-// is (number of operations before it + operation index) mod 3, so every operation is exercised with a
-// disjoint dst, in place and with a longer dst at the three depths.
-func streamMachine(t *engine.T, b *bufs, v variant, bucket int, lens, offs []int, first int) engine.Machine[*sstate] {
+// streamMachine: the buffer mode of an operation is (number of operations before it + operation index)
+// mod 3, so every operation is exercised with a disjoint dst, in place and with a longer dst at the
+// three depths.
+func streamMachine(b *bufs, v variant, bucket int, lens, offs []int) engine.Machine[*sstate] {
 	ops, names := alphabet(lens, offs)
 	exp := expected(v)
 	bc := bucketClass(bucket)
 	return engine.Machine[*sstate]{
 		Name: fmt.Sprintf("%s/bucket=%d", v.name, bucket),
-		New: func() *sstate {
-			s := &sstate{c: newStream(v, bucket, true)}
-			if first >= 0 {
-				apply(t, b, exp, s, ops[first], first%nModes, bc)
-			}
-			return s
-		},
-		Ops: names,
+		New:  func() *sstate { return &sstate{c: newStream(v, bucket, true)} },
+		Ops:  names,
 		Step: func(s *sstate, op int, t *engine.T) bool {
 			return apply(t, b, exp, s, ops[op], (s.steps+op)%nModes, bc)
 		},
@@ -563,8 +612,7 @@ func macMachine(col *collector, b *bufs, mvi int) engine.Machine[*mstate] {
 func (Prop) Run(c *engine.Ctx) {
 	quick := c.Quick()
 
-	// ---- E1 stream. Quick: one search per object. Thorough: one search per (object, first operation), so
-	// that every case stays far below the per-case watchdog; states are then merged within a case only.
+	// ---- E1 stream: one search per (variant, bucket size) object and alphabet
 	for _, v := range variants {
 		for _, bucket := range buckets {
 			v, bucket := v, bucket
@@ -572,32 +620,20 @@ func (Prop) Run(c *engine.Ctx) {
 				c.Case(fmt.Sprintf("stream/bfs/%s/bucket=%d/ops=54/depth=3", v.name, bucket), func(t *engine.T) {
 					b := newBufs()
 					defer b.free()
-					engine.BFS(t, streamMachine(t, b, v, bucket, quickLens, quickOffs, -1), 3)
+					engine.BFS(t, streamMachine(b, v, bucket, quickLens, quickOffs), 3)
 				})
 				continue
 			}
-			for _, cfg := range []struct {
-				lens, offs []int
-				depth      int
-			}{{thoroughLens, thoroughOffs, thoroughBigDepth}, {quickLens, quickOffs, thoroughSmallDepth}} {
-				cfg := cfg
-				ops, names := alphabet(cfg.lens, cfg.offs)
-				for first := range ops {
-					first := first
-					c.Case(fmt.Sprintf("stream/bfs/%s/bucket=%d/ops=%d/depth=%d/first=%s", v.name, bucket, len(ops), cfg.depth, names[first]), func(t *engine.T) {
-						b := newBufs()
-						defer b.free()
-						// the first operation, checked once on its own
-						s := &sstate{c: newStream(v, bucket, true)}
-						t.Eval(1)
-						if !apply(t, b, expected(v), s, ops[first], first%nModes, bucketClass(bucket)) {
-							return
-						}
-						t.Nontrivial(fmt.Sprintf("%s/bucket=%d", v.name, bucket) + "\x00" + hashKey(s.c, s.pos))
-						engine.BFS(t, streamMachine(t, b, v, bucket, cfg.lens, cfg.offs, first), cfg.depth-1)
-					})
-				}
-			}
+			c.Case(fmt.Sprintf("stream/bfs/%s/bucket=%d/ops=187/depth=%d", v.name, bucket, thoroughBigDepth), func(t *engine.T) {
+				b := newBufs()
+				defer b.free()
+				engine.BFS(t, streamMachine(b, v, bucket, thoroughLens, thoroughOffs), thoroughBigDepth)
+			})
+			c.Case(fmt.Sprintf("stream/bfs/%s/bucket=%d/ops=54/depth=%d", v.name, bucket, thoroughSmallDepth), func(t *engine.T) {
+				b := newBufs()
+				defer b.free()
+				engine.BFS(t, streamMachine(b, v, bucket, quickLens, quickOffs), thoroughSmallDepth)
+			})
 		}
 	}
 
